@@ -86,16 +86,13 @@ def check_function(chk, module: str, qual: str) -> None:
                 problems.append(f"`{a['text']}` accepts {desc} up to {c:.4g}, far beyond a collinearity tolerance of {EPS_MAX}{extra}")
             else:
                 facts.append(f"{desc} < {c:.3g}")
-        chk.expect(
-            not problems and bool(facts),
-            "degenerate-guard",
-            fi.site(g),
-            "early return only when the geometry is degenerate: " + " or ".join(facts),
-            ("early return under `" + norm(g.test)[:80] + "` is not a collinearity test with a tolerance <= " + str(EPS_MAX) + ": " + "; ".join(problems[:2])) if problems else f"early return under `{norm(g.test)[:80]}` bounds no quantity",
-            gkey,
-            expected=f"|b_i x b_j| (or the sine of the bond angle) < c with c <= {EPS_MAX}",
-            found=[{"quantity": TA.classify(a["monomial"], res["quantities"], res["alg"])[1] if a["monomial"] else "constant", "bound": a["c"]} for a in atoms][:4],
-        )
+        found = [{"quantity": TA.classify(a["monomial"], res["quantities"], res["alg"])[1] if a["monomial"] else "constant", "bound": a["c"]} for a in atoms][:4]
+        if problems:
+            chk.violation("degenerate-guard", fi.site(g), "early return under `" + norm(g.test)[:80] + "` is not a collinearity test with a tolerance <= " + str(EPS_MAX) + ": " + "; ".join(problems[:2]), gkey, expected=f"|b_i x b_j| (or the sine of the bond angle) < c with c <= {EPS_MAX}", found=found)
+        elif not facts:
+            chk.error("degenerate-guard", fi.site(g), f"early return under `{norm(g.test)[:80]}` bounds no norm from above by a positive number: not readable as a degeneracy test")
+        else:
+            chk.ok("degenerate-guard", fi.site(g), "early return only when the geometry is degenerate: " + " or ".join(facts))
     # numpy.clip(c, -1, 1) is read as the identity by the algebra: that needs |c| <= 1, i.e. c is a dot product of vectors of length <= 1
     inl = Inliner(fi.node)
     from sa.flow import FlowMap
@@ -178,9 +175,11 @@ def check_users(chk) -> None:
     repo = chk.repo
     ta = repo.func(T1, "torsion_angle")
     chk.note_function(ta)
-    rets = [r for r in ta.node.body if isinstance(r, ast.Return)]
-    chk.expect(len(rets) == 1 and flat(rets[0].value) == flat("calculate_torsion_angle_coords(a1.coordinates, a2.coordinates, a3.coordinates, a4.coordinates)"), "torsion-wrapper", ta.where, "torsion_angle passes the four atoms' coordinates in order", "torsion_angle does not pass (a1, a2, a3, a4).coordinates in order", K(ta, "wrapper"))
     from checks import c03, c11, c18e
+
+    if not c18e.check_wrapper(chk, ta):
+        rets = [r for r in ta.node.body if isinstance(r, ast.Return)]
+        chk.expect(len(rets) == 1 and flat(rets[0].value) == flat("calculate_torsion_angle_coords(a1.coordinates, a2.coordinates, a3.coordinates, a4.coordinates)"), "torsion-wrapper", ta.where, "torsion_angle passes the four atoms' coordinates in order", "torsion_angle does not pass (a1, a2, a3, a4).coordinates in order", K(ta, "wrapper"))
 
     # chi of both implementations, the torsion table of tertiary_v2 (evaluated on stub residues / segments; pinned form only as a fallback)
     c18e.check_chi(chk)
@@ -208,7 +207,7 @@ def run(chk) -> None:
     )
     chk.trusted = ["CPython ast", "numpy cross/dot/norm/arctan2 semantics", "IUPAC-IUB torsion table (spec/iupac_torsions.json)"]
     chk.assumptions = ["non-degenerate input (no three consecutive points collinear)", "floating-point error is not decided"]
-    chk.robust |= {"torsion-closed-form", "clip-noop", "chi-atoms", "chi-agree", "chi-bases", "backbone-atoms", "cis-trans", "cis-trans-atoms", "bph-split", "bph-class-table", "chi-class-units", "chi-dispatch", "degenerate-guard", "torsion-returned"}
+    chk.robust |= {"torsion-closed-form", "clip-noop", "chi-atoms", "chi-agree", "chi-bases", "backbone-atoms", "cis-trans", "cis-trans-atoms", "bph-split", "bph-class-table", "chi-class-units", "chi-dispatch", "degenerate-guard", "torsion-returned", "torsion-wrapper"}
     check_function(chk, T1, "calculate_torsion_angle_coords")
     check_function(chk, T2, "calculate_torsion_angle")
     check_users(chk)
